@@ -43,6 +43,18 @@ CLAIMED = {
         "Trusts spec/pdf_operators.json. Known findings C16-R6 (current colour spaces not part of the q/Q snapshot) are recorded.",
         "DESIGN.md §5 C16",
     ),
+    "C11": (
+        "backward provenance (taint) analysis from every interpolation in XMLConverter writes, with escaper/numeric-format cleansing and a reviewed safe-expression table; sibling agreement of codec use; class-hierarchy-aware dispatch-order check; tag-balance check of literal output per branch; structural order checks on TextConverter",
+        "Decides structural necessary conditions: no document-controlled value reaches the XML output unescaped, every converter encodes with its codec on a binary sink, isinstance dispatch does not shadow subclasses and covers every item class, literal XML written per branch is balanced, the text converter renders children in order with one newline per text box and one form feed per page. It does not decide that the output characters equal the tree's text for every document, nor XML-1.0-forbidden control characters when stripcontrol is off.",
+        "Trusts the source/sanitizer tables in rules/c15.py (make_prov) and the reviewed safe-expression table in rules/c11.py.",
+        "DESIGN.md §5 C11",
+    ),
+    "C15": (
+        "complete inventory of file-system call sites against a reviewed table, call-graph reachability for developer-only sites, backward provenance (taint) from every path argument with basename / realpath-prefix confinement recognised by CFG dominance, dominance of the unique-name loop over write-mode opens",
+        "Decides, relative to its source and sanitizer tables, that processing a document performs no file-system access other than the reviewed sites, that no document-controlled string reaches a path argument unconfined, and that image export never opens an existing file for writing. The claim is complete for the package's source (every call site is enumerated on each run).",
+        "Trusts the FS-call table, the source/sanitizer tables and the call-graph resolution (fan-out over-approximates callers). Pickle loading of resource files inside the resource directory is trusted.",
+        "DESIGN.md §5 C15",
+    ),
     "C14": (
         "finite abstraction of the scanner automaton analysed completely (path enumeration of loop-free scanners with symbolic index arithmetic; zero-advance subgraph acyclicity), exception-flow analysis over the resolved call graph with a verified safe-table, buffer-read classification, write-set checks",
         "The tokenizer's twelve scanner methods are abstracted to a finite automaton whose every transition is classified by the advance of the returned index; acyclicity of the zero-advance subgraph plus the driver-loop obligations give termination and non-decreasing positions for every byte string; the exception-flow analysis shows only PSEOF escapes; read classification shows tokens cannot depend on the buffer size. This is a complete analysis of the abstraction, not a sample of inputs.",
